@@ -356,8 +356,10 @@ class Result:
 
     def finish(self, level="proof"):
         known = [k for k in known_findings() if k[0] == self.pid]
+        # runs against a scratch copy of the repository (VERIF_REPO) must not overwrite the real evidence
+        evdir = os.path.join(VERIF, "evidence") if REPO == "/repo" else os.path.join(BUILD, "evidence-scratch")
         os.makedirs(os.path.join(VERIF, "replays"), exist_ok=True)
-        os.makedirs(os.path.join(VERIF, "evidence"), exist_ok=True)
+        os.makedirs(evdir, exist_ok=True)
         reported, known_hit = [], {}
         for sig, desc, replay, no_input in self.violations:
             hit = None
@@ -393,7 +395,7 @@ class Result:
             "violations": len(seen), "known_findings_hit": [t for (_, t) in known_hit],
             "notes": self.notes,
         }
-        json.dump(ev, open(os.path.join(VERIF, "evidence", "%s.json" % self.pid), "w"), indent=1)
+        json.dump(ev, open(os.path.join(evdir, "%s.json" % self.pid), "w"), indent=1)
         return 1 if seen else 0
 
 
@@ -421,3 +423,9 @@ def rnd_bytes(rng, n):
 
 def hx(b):
     return b.hex() if len(b) else "-"
+
+
+def driver_supports(driver, op):
+    """Does the extracted-model driver know operation family `op`?"""
+    rc, out, err = run_lines(driver, [op + " ?"])
+    return bool(out) and out[0] != "UNSUPPORTED"
